@@ -129,3 +129,46 @@ Proof.
     cbn [bind]. rewrite IH; [|exact Hl|lia].
     cbn [group2 flat_map snd fst]. rewrite emit_all_app. reflexivity.
 Qed.
+
+(* ---- multi-key for-loops: a break (or return, or error) coming back from a deeper key level is handed upward unchanged
+   by every enclosing key level, and ends the whole loop *)
+Lemma multikey_exit_propagates fns rec k k2 ks vn key sub more body st s1 o st2 :
+  a_set_at_scope k (VStr key) (stk st) = Some s1 ->
+  rec (TMulti (k2 :: ks) vn sub body) (set_stk s1 st) = Ok (RO o, st2) -> o <> ONormal ->
+  step fns rec (TMulti (k :: k2 :: ks) vn ((key, VMap sub) :: more) body) st = Ok (RO o, st2).
+Proof.
+  intros Hs Hr Ho. cbn [step]. rewrite Hs. unfold ex. rewrite Hr. cbn [bind]. destruct o; try reflexivity. contradiction.
+Qed.
+
+Lemma multikey_break_ends_loop fns rec ks vn e body st m st1 st2 :
+  rec (TEval e) st = Ok (RV (VMap m), st1) ->
+  rec (TMulti ks vn m body) (push_frame st1) = Ok (RO OBreak, st2) ->
+  step fns rec (TExec (SForMulti ks vn e body)) st = Ok (RO ONormal, pop_frame st2).
+Proof. intros He Hm. cbn [step exec_stmt]. unfold ev, ex. rewrite He. cbn [bind]. rewrite Hm. reflexivity. Qed.
+
+(* ---- by value at function RETURN: once a sub-expression has been evaluated to v, v is what the enclosing expression
+   uses, whatever the evaluation of the remaining sub-expressions does to the storage v was read from *)
+Lemma earlier_value_is_a_snapshot fns rec e es st v st1 vs st2 :
+  rec (TEval e) st = Ok (RV v, st1) -> rec (TEvals es) st1 = Ok (RVs vs, st2) ->
+  step fns rec (TEvals (e :: es)) st = Ok (RVs (v :: vs), st2).
+Proof. intros He Hs. cbn [step]. unfold ev, evs. rewrite He. cbn [bind]. rewrite Hs. reflexivity. Qed.
+
+Lemma earlier_argument_is_a_snapshot fns rec soft e es t x ps st v st1 vs st2 :
+  rec (TEval e) st = Ok (RV v, st1) -> gate t v = true -> rec (TArgs soft es ps) st1 = Ok (RVs vs, st2) ->
+  step fns rec (TArgs soft (e :: es) ((t, x) :: ps)) st = Ok (RVs (v :: vs), st2).
+Proof. intros He Hg Hs. cbn [step]. unfold ev. rewrite He. cbn [bind]. rewrite Hg, Hs. reflexivity. Qed.
+
+(* the scenario of the missed mutation: f() returns the oosvar map @c, bump() then changes @c, g receives both *)
+Definition return_snapshot_witness : prog :=
+  let incr n := SAssign (LOos (B "c")) [EStr (B "v")] (EBin (BArith OAdd) (EIndex (EOos (B "c")) (EStr (B "v"))) (EInt n)) in
+  {| p_funcs := [
+       {| f_name := B "f"; f_sub := false; f_params := []; f_ret := TMap; f_body := [incr 1; SReturn (Some (EOos (B "c")))] |};
+       {| f_name := B "bump"; f_sub := false; f_params := []; f_ret := TStr; f_body := [incr 100; SReturn (Some (EStr (B "bumped")))] |};
+       {| f_name := B "g"; f_sub := false; f_params := [(TMap, B "m"); (TStr, B "s")]; f_ret := TStr;
+          f_body := [SReturn (Some (EBin BDot (EBin BDot (EIndex (ELocal (B "m")) (EStr (B "v"))) (EStr (B "/"))) (ELocal (B "s"))))] |}];
+     p_begin := []; p_main := [];
+     p_end := [[SPrint (ECall (B "g") [ECall (B "f") []; ECall (B "bump") []]); SPrint (EIndex (EOos (B "c")) (EStr (B "v")))]] |}.
+
+Lemma return_snapshot_example :
+  run_prog documented return_snapshot_witness false 60 [] = Ok [OLine (B "1/bumped"); OLine (B "101")].
+Proof. vm_compute. reflexivity. Qed.
